@@ -98,6 +98,20 @@ m("c07-ldir-rewind-by-1",["C07","C09"],"op_exbtsg.go","func oopLDIR(cpu *CPU) {\
 m("c07-halt-no-rewind",["C07","C08","C01"],"op_ctrl.go","\tcpu.PC--\n\tcpu.HALT = true","\tcpu.HALT = true")
 m("c07-nmi-pushes-pc-plus-1",["C07","C06"],"cpu.go","\tif cpu.Interrupt.Type == NMIType {\n\t\tcpu.SP -= 2\n\t\tcpu.writeU16(cpu.SP, cpu.PC)","\tif cpu.Interrupt.Type == NMIType {\n\t\tcpu.SP -= 2\n\t\tcpu.writeU16(cpu.SP, cpu.PC+1)")
 m("c07-im0-pushes-pc-plus-2",["C07"],"cpu.go","cpu.Memory = newIm0data(cpu.PC, cpu.Interrupt.Data, savedMemory)","cpu.PC++\n\t\t\tcpu.Memory = newIm0data(cpu.PC, cpu.Interrupt.Data, savedMemory)",note="a different wrong resume address than the recorded finding: must still be reported")
+
+_RUN_HEAD="\tvar ctxErr error\n\tvar canceled int32\n\tctx2, cancel := context.WithCancel(ctx)\n\tdefer cancel()\n\tgo func() {\n\t\t<-ctx2.Done()\n\t\tctxErr = ctx.Err()\n\t\tatomic.StoreInt32(&canceled, 1)\n\t}()\n\n\tcpu.HALT = false\n\tfor {\n\t\tif atomic.LoadInt32(&canceled) != 0 {\n\t\t\treturn ctxErr\n\t\t}"
+def _helper(body, rel="\tdefer release()\n"):
+    return ("\tcanceled, release := watchDone(ctx)\n"+rel+"\n\tcpu.HALT = false\n\tfor {\n\t\tif reason := canceled.Load(); reason != nil {\n\t\t\treturn *reason\n\t\t}",
+            [{"file":"cpu.go","old":"","new":"func watchDone(ctx context.Context) (canceled *atomic.Pointer[error], release context.CancelFunc) {\n\tcanceled = new(atomic.Pointer[error])\n\tctx2, cancel := context.WithCancel(ctx)\n\tgo func() {\n"+body+"\t}()\n\treturn canceled, cancel\n}\n"}])
+_ok="\t\t<-ctx2.Done()\n\t\terr := ctx.Err()\n\t\tcanceled.Store(&err)\n"
+n,e=_helper(_ok)
+m("c13-helper-watcher-refactor",["C13","C08","C12"],"cpu.go",_RUN_HEAD,n,edits=e,expect="silent",note="watcher moved into a helper and publishing through one atomic.Pointer: property holds")
+n,e=_helper(_ok,rel="\t_ = release\n")
+m("c13-helper-watcher-no-release",["C13"],"cpu.go",_RUN_HEAD,n,edits=e,note="goroutine started in a helper and never released")
+n,e=_helper("\t\t<-ctx2.Done()\n\t\tvar err error\n\t\tcanceled.Store(&err)\n\t\terr = ctx.Err()\n")
+m("c13-helper-watcher-publish-early",["C13"],"cpu.go",_RUN_HEAD,n,edits=e,note="pointer published before the error is written")
+n,e=_helper("\t\t_ = ctx2\n\t\t<-ctx.Done()\n\t\terr := ctx.Err()\n\t\tcanceled.Store(&err)\n")
+m("c13-helper-watcher-waits-on-parent",["C13"],"cpu.go",_RUN_HEAD,n,edits=e,note="helper goroutine waits on the caller's context")
 # ---- C14
 m("c14-r-8bit-wrap",["C14","C01"],"cpu.go","cpu.IR.Lo = rc&0x80 | (rc+1)&0x7f","cpu.IR.Lo = rc + 1")
 m("c14-prefix-plain-fetch",["C14"],"operation.go","\tcase 0xed:\n\t\tswitch c1 := cpu.fetchM1(); c1 {","\tcase 0xed:\n\t\tswitch c1 := cpu.fetch(); c1 {")
@@ -128,13 +142,13 @@ m("c13-no-defer-cancel",["C13"],"cpu.go","\tdefer cancel()\n","\t_ = cancel\n",n
 m("c13-plain-flag-read",["C13"],"cpu.go","if atomic.LoadInt32(&canceled) != 0 {","if canceled != 0 {")
 m("c13-check-hoisted",["C13","C08"],"cpu.go","\tfor {\n\t\tif atomic.LoadInt32(&canceled) != 0 {\n\t\t\treturn ctxErr\n\t\t}\n","\tif atomic.LoadInt32(&canceled) != 0 {\n\t\treturn ctxErr\n\t}\n\tfor {\n")
 m("c13-flag-before-error",["C13"],"cpu.go","\t\tctxErr = ctx.Err()\n\t\tatomic.StoreInt32(&canceled, 1)","\t\tatomic.StoreInt32(&canceled, 1)\n\t\tctxErr = ctx.Err()")
-m("c13-return-nil-on-cancel",["C13","C08"],"cpu.go","\t\t\treturn ctxErr\n","\t\t\treturn nil\n")
-m("c13-wait-on-parent",["C13"],"cpu.go","\t\t<-ctx2.Done()","\t\t<-ctx.Done()",note="leak when the parent context is never cancelled")
+m("c13-return-nil-on-cancel",["C13","C08"],"cpu.go","\t\t\treturn ctxErr\n","\t\t\t_ = ctxErr\n\t\t\treturn nil\n")
+m("c13-wait-on-parent",["C13"],"cpu.go","\t\t<-ctx2.Done()","\t\t_ = ctx2\n\t\t<-ctx.Done()",note="leak when the parent context is never cancelled")
 m("c13-check-every-256-steps",["C13","C08"],"cpu.go","\tfor {\n\t\tif atomic.LoadInt32(&canceled) != 0 {","\tfor n := 0; ; n++ {\n\t\tif n&0xff == 0 && atomic.LoadInt32(&canceled) != 0 {")
 m("c13-poll-ctx-err-refactor",["C13","C08"],"cpu.go","\tvar ctxErr error\n\tvar canceled int32\n\tctx2, cancel := context.WithCancel(ctx)\n\tdefer cancel()\n\tgo func() {\n\t\t<-ctx2.Done()\n\t\tctxErr = ctx.Err()\n\t\tatomic.StoreInt32(&canceled, 1)\n\t}()\n\n\tcpu.HALT = false\n\tfor {\n\t\tif atomic.LoadInt32(&canceled) != 0 {\n\t\t\treturn ctxErr\n\t\t}","\tvar _ = atomic.LoadInt32\n\tcpu.HALT = false\n\tfor {\n\t\tif err := ctx.Err(); err != nil {\n\t\t\treturn err\n\t\t}",expect="silent",note="synchronous polling of ctx.Err(): no goroutine, property holds")
 
 # ---- C10
-m("c10-lazy-parity-table",["C10","C02"],"accum.go","func (cpu *CPU) updateFlagBitop(r uint8, carry uint8) {\n","var parityTable []uint8\n\nfunc parityOf(r uint8) uint8 {\n\tif parityTable == nil {\n\t\tt := make([]uint8, 256)\n\t\tfor i := range t {\n\t\t\tt[i] = (uint8(bits.OnesCount8(uint8(i))%2) - 1) & maskPV\n\t\t}\n\t\tparityTable = t\n\t}\n\treturn parityTable[r]\n}\n\nfunc (cpu *CPU) updateFlagBitop(r uint8, carry uint8) {\n\t_ = parityOf\n",note="package-level table filled on first use: shared mutable state (races between CPUs) - here not even called from Step")
+m("c10-lazy-parity-table",["C10"],"accum.go","func (cpu *CPU) updateFlagBitop(r uint8, carry uint8) {\n","var parityTable []uint8\n\nfunc parityOf(r uint8) uint8 {\n\tif parityTable == nil {\n\t\tt := make([]uint8, 256)\n\t\tfor i := range t {\n\t\t\tt[i] = (uint8(bits.OnesCount8(uint8(i))%2) - 1) & maskPV\n\t\t}\n\t\tparityTable = t\n\t}\n\treturn parityTable[r]\n}\n\nfunc (cpu *CPU) updateFlagBitop(r uint8, carry uint8) {\n\t_ = parityOf\n",note="package-level table filled on first use: shared mutable state (races between CPUs) - here not even called from Step")
 m("c10-lazy-table-used",["C10"],"accum.go","\tor |= (uint8(bits.OnesCount8(r)%2) - 1) & maskPV\n\tor |= carry & maskC","\tif parityTab == nil {\n\t\tt := make([]uint8, 256)\n\t\tfor i := range t {\n\t\t\tt[i] = (uint8(bits.OnesCount8(uint8(i))%2) - 1) & maskPV\n\t\t}\n\t\tparityTab = t\n\t}\n\tor |= parityTab[r]\n\tor |= carry & maskC",edits=[{"file":"accum.go","old":"func (cpu *CPU) updateFlagBitop(","new":"var parityTab []uint8\n\nfunc (cpu *CPU) updateFlagBitop("}],note="same results, but CPUs on different goroutines race on the table")
 m("c10-hidden-field",["C10","C01"],"z80.go","\t// HALT indicates whether the last Run() is terminated with HALT op.\n\tHALT bool\n","\t// HALT indicates whether the last Run() is terminated with HALT op.\n\tHALT bool\n\n\tlastOp uint8\n",edits=[{"file":"op_ctrl.go","old":"func oopNOP(cpu *CPU) {\n","new":"func oopNOP(cpu *CPU) {\n\tif cpu.lastOp == 0x76 {\n\t\tcpu.IR.Lo ^= 0x80\n\t}\n"},{"file":"op_ctrl.go","old":"\tcpu.PC--\n\tcpu.HALT = true","new":"\tcpu.PC--\n\tcpu.HALT = true\n\tcpu.lastOp = 0x76"}],note="unexported field carried between Steps: not captured by States+memory")
 m("c10-states-pointer-field",["C10"],"z80.go","\tIFF1 bool\n\tIFF2 bool\n\tIM   int\n}","\tIFF1 bool\n\tIFF2 bool\n\tIM   int\n\n\tShadow *GPR\n}",note="a copy of States is no longer a snapshot")
@@ -160,7 +174,7 @@ m("c16-setflag-touches-a",["C16"],"flag.go","gpr.AF.Lo |= uint8(f)","gpr.AF.Lo |
 m("c16-u16-refactor",["C16","C01"],"z80.go","return (uint16(r.Hi) << 8) | uint16(r.Lo)","return uint16(r.Hi)*256 + uint16(r.Lo)",expect="silent",note="equivalent formulation")
 # ---- C17
 m("c17-mask-bit",["C17"],"internal/zex/doc.go","var DocBITZ80 = Case{\n\t0x53,","var DocBITZ80 = Case{\n\t0x57,")
-m("c17-crc-digit",["C17"],"internal/zex/all.go","CRC32(0x","CRC32(0x1",occ=7,note="one expected CRC altered")
+m("c17-crc-digit",["C17"],"internal/zex/all.go","CRC32(0xa886cc44)","CRC32(0xa886cc45)",note="one expected CRC altered")
 m("c17-case-dropped",["C17"],"internal/zex/doc.go","\tDocNEGOP,\n","")
 m("c17-shift-vector-bit",["C17"],"internal/zex/doc.go","0xffff, 0xffff, 0xffff, 0xd7, 0x00, 0xffff,","0xffff, 0xffff, 0xfffe, 0xd7, 0x00, 0xffff,",occ=2)
 m("c17-test-skips-a-case",["C17"],"z80_test.go","\tfor _, c0 := range zex.AllCases {\n\t\tc := c0\n","\tfor _, c0 := range zex.AllCases {\n\t\tc := c0\n\t\tif c.Desc == \"<daa,cpl,scf,ccf>\" {\n\t\t\tcontinue\n\t\t}\n")
@@ -215,5 +229,6 @@ m("c02-parity-table-one-entry-wrong",["C02","C01"],"accum.go","func (cpu *CPU) u
 m("c02-parity-table-patched-at-runtime",["C02","C10"],"accum.go","func (cpu *CPU) updateFlagLogic8(r uint8, and bool) {","var parityTable = [256]uint8{"+_pt+"}\n\n// TuneParity lets callers patch the table.\nfunc TuneParity(i, v uint8) { parityTable[i] = v }\n\nfunc (cpu *CPU) updateFlagLogic8(r uint8, and bool) {",edits=[{"file":"accum.go","old":"\tor |= (uint8(bits.OnesCount8(r)%2) - 1) & maskPV\n\tcpu.AF.Lo = cpu.AF.Lo&^nand | or\n}\n\nfunc (cpu *CPU) updateFlagBitop","new":"\tor |= parityTable[r]\n\tcpu.AF.Lo = cpu.AF.Lo&^nand | or\n}\n\nfunc (cpu *CPU) updateFlagBitop"}],note="the table has a writer outside initialisation: shared mutable state")
 m("c02-rot-function-table-refactor",["C02","C01","C05","C12"],"operation.go","\t\tcase 0x00:\n\t\t\txopRLCb(cpu)\n","\t\tcase 0x00:\n\t\t\tcpu.BC.Hi = rotOps[c1>>3&7](cpu, cpu.BC.Hi)\n",edits=[{"file":"accum.go","old":"","new":"var rotOps = [8]func(cpu *CPU, a uint8) uint8{(*CPU).rlcU8, (*CPU).rrcU8, (*CPU).rlU8, (*CPU).rrU8, (*CPU).slaU8, (*CPU).sraU8, (*CPU).sl1U8, (*CPU).srlU8}\n"}],expect="silent",note="RLC B dispatched through a constant table of method expressions")
 
-json.dump(M,open("controls.json","w"),indent=1)
+import os
+json.dump(M,open(os.path.join(os.path.dirname(os.path.abspath(__file__)),"controls.json"),"w"),indent=1)
 print(len(M),"controls")
